@@ -29,6 +29,9 @@ type vCtx struct {
 	regions map[uint64][]byte // value id -> marshalled pb.Regions
 }
 
+// literal values a flag key could hold besides "true" (value ids 9001.. of the harness bijection)
+var vLiteralVals = map[uint64]string{9001: "false", 9002: "0", 9003: "no", 9004: "FALSE", 9005: "1", 9006: "bootstrapped"}
+
 func vStr(prefix string, n uint64) string {
 	if n == 0 {
 		return ""
@@ -46,6 +49,9 @@ func (c *vCtx) key(n uint64) []byte {
 func (c *vCtx) val(n uint64) []byte {
 	if n == 1 {
 		return []byte("true")
+	}
+	if s, ok := vLiteralVals[n]; ok {
+		return []byte(s)
 	}
 	if b, ok := c.regions[n]; ok {
 		return b
